@@ -1050,7 +1050,14 @@ func (ro *RedisOutput) sendCmdsBatch(replayWait usync.WaitCloser, conn client.Re
 				delayNs:    delayNs,
 			}:
 			case <-replayWait.Context().Done():
-				return replayWait.Error()
+				// the batch has been dispatched already and must not be sent again; the
+				// closer's error may not be set yet while its context is already done
+				cmdQueue = cmdQueue[:0]
+				queuedByteSize = 0
+				if err := replayWait.Error(); err != nil {
+					return err
+				}
+				return replayWait.Context().Err()
 			}
 		} else {
 			if delayNs > 0 {
